@@ -6,8 +6,9 @@ import build
 VERIF = build.VERIF
 SCRATCH = os.environ.get("VERIF_SCRATCH", "/dev/shm")
 JOBS = build.JOBS
-EVIDENCE = os.path.join(VERIF, "evidence")
-REPLAYS = os.path.join(VERIF, "replays")
+EVIDENCE = os.environ.get("VERIF_EVIDENCE_DIR", os.path.join(VERIF, "evidence"))
+REPLAYS = os.environ.get("VERIF_REPLAYS_DIR", os.path.join(VERIF, "replays"))
+COMMITTED_REPLAYS = os.path.join(VERIF, "replays")
 
 ENV = dict(os.environ)
 ENV["ASAN_OPTIONS"] = ("detect_leaks=0:abort_on_error=0:allocator_may_return_null=1:max_allocation_size_mb=2048:handle_abort=1:"
